@@ -38,6 +38,12 @@ class Boom(Exception):
 
 
 def raise_outcome(o, state=None):
+    if o not in ('ok', 'redirect') and state is not None and state.get('ctx') is not None:
+        # user code announced the length of the payload it was ABOUT to send, then failed: the answer is the fault, and
+        # its Content-Length is the fault's
+        h = getattr(getattr(state['ctx'], 'transport', None), 'resp_headers', None)
+        if isinstance(h, dict) and state.get('in_fn'):
+            h['Content-Length'] = '5000'
     if o == 'redirect':
         from spyne.server.http import HttpRedirect
         raise HttpRedirect(state['ctx'], 'http://elsewhere.example/moved')
@@ -76,6 +82,7 @@ def build(s, log, state):
         @srpc(Integer, _returns=Integer, _evmgr=mev)
         def f(a):
             log.append(['fn', 'call'])
+            state['in_fn'] = True
             raise_outcome(inj['fn'], state)
             state['fnOk'] = True
             if inj['ser'] == 'exc':
@@ -86,12 +93,14 @@ def build(s, log, state):
         def h(a):
             # a method that declares no return value
             log.append(['fn', 'call'])
+            state['in_fn'] = True
             raise_outcome(inj['fn'], state)
             state['fnOk'] = True
 
         @srpc(Integer, _returns=(ByteArray if fam == 'http' else Iterable(Integer)), _evmgr=mev)
         def g(a):
             log.append(['fn', 'call'])
+            state['in_fn'] = True
             raise_outcome(inj['fn'], state)
             state['fnOk'] = True
             if fam == 'http':
